@@ -721,8 +721,10 @@ rc::Gen<Case> gen_large() {
 // Memory: the checker allocates and frees many small vectors / strings per step. ASan parks freed chunks in a quarantine
 // of 256 MB *requested* bytes by default, which with redzones and size-class rounding grew a worker to ~1.8 GB RSS after
 // ~1000 cases. 32 MB still holds every chunk freed within a case (use-after-free inside a history is still caught) and
-// keeps a worker at ~0.4 GB. Options given in the ASAN_OPTIONS environment by the engine still apply on top of this.
-extern "C" const char* __asan_default_options() { return "quarantine_size_mb=32"; }
+// keeps a worker small. The second contributor is ASan's stack depot (one entry per distinct allocation / free stack; the
+// recursive rapidcheck generators produce ever new 30-frame stacks): 8 frames bound it. Measured: a worker of the thorough
+// tier (~14 000 histories) stays below ~0.8 GB. Options in the ASAN_OPTIONS environment set by the engine still apply.
+extern "C" const char* __asan_default_options() { return "quarantine_size_mb=32:malloc_context_size=8"; }
 
 int main(int argc, char** argv) {
   std::vector<vf::Sub> subs;
